@@ -45,3 +45,27 @@ impl<T: Ser> Ser for Rc<T> {
     open spec fn enc(&self) -> Seq<Tok> { (**self).enc() }
     #[verifier::external_body] fn serialize(&self, serializer: &mut Serializer) -> (r: Result<(), CborError>) { unimplemented!() }
 }
+ser_opaque!(MetadatumItem);
+pub type TransactionMetadatumLabel = BigNum;
+#[verifier::external_body] pub struct Language { _p: core::marker::PhantomData<u8> }
+pub uninterp spec fn lang_v1() -> Language;
+pub uninterp spec fn lang_v2() -> Language;
+pub uninterp spec fn lang_v3() -> Language;
+impl Language {
+    #[verifier::external_body] pub fn new_plutus_v1() -> (r: Language) ensures r == lang_v1() { unimplemented!() }
+    #[verifier::external_body] pub fn new_plutus_v2() -> (r: Language) ensures r == lang_v2() { unimplemented!() }
+    #[verifier::external_body] pub fn new_plutus_v3() -> (r: Language) ensures r == lang_v3() { unimplemented!() }
+}
+impl Ser for Language {
+    uninterp spec fn enc(&self) -> Seq<Tok>;
+    #[verifier::external_body] fn serialize(&self, serializer: &mut Serializer) -> (r: Result<(), CborError>) { unimplemented!() }
+}
+#[verifier::external_body] pub struct PlutusScripts { _p: core::marker::PhantomData<u8> }
+impl PlutusScripts {
+    pub uninterp spec fn has(&self, l: Language) -> bool;
+    pub uninterp spec fn enc_ver(&self, l: Language) -> Seq<Tok>;
+    #[verifier::external_body] pub fn has_version(&self, language: &Language) -> (r: bool) ensures r == self.has(*language) { unimplemented!() }
+    #[verifier::external_body] pub fn serialize_by_version(&self, version: &Language, serializer: &mut Serializer) -> (r: Result<(), CborError>)
+        ensures r is Ok, final(serializer).toks() == old(serializer).toks() + self.enc_ver(*version) { unimplemented!() }
+}
+impl Clone for NativeScripts { #[verifier::external_body] fn clone(&self) -> (r: Self) ensures r == *self { unimplemented!() } }
